@@ -16,6 +16,10 @@ Enumerations as a user reaches them (tools/c03_py_access.py): besides `__members
          reverse (in the Lean table `accessViews`; theorems C03_every_access_path_agrees, C03_access_paths_covered,
          C03_no_name_resolves_outside_its_enumeration) plus, per run, seeded random orders / nestings judged by stage D.
          Every answer that is not the C++ number is a violation naming enumeration, name, path, order and both numbers.
+         Foreign look-alikes: the same sweep in fresh interpreters in which an APPLICATION has first defined and used its own
+         classes under the names of the protocol enumerations (`class DataType(IntEnum)`, `@enum_bitmask(X) class XMask`; same /
+         other member counts, names, numbers, __module__ / __qualname__; before the import, before the first question, after
+         the first iteration - `lookalike_specs`): the protocol enumerations must still answer with the C++ numbers.
 Classification in every call form and at every moment: the C++ translator lists every DECLARATION of IsCommand / IsResponse
          in the headers (overloads, members) and the probe calls each with an argument of its declared parameter type for
          every MessageType enumerator (`callForms`, theorem C03_every_call_form_agrees); the Python translator scans every
@@ -519,6 +523,19 @@ def diff_access(ctx, cxx, py, runs, only=None):
             det.setdefault((d['enum'], d['path'], d['name'], d.get('value')), d)
         how = 'enumerations asked in the order `%s` (%s, %s; fresh interpreter)' % (
             run['label'], ' < '.join(run['enum_order'][:3]) + ' < ...', run['nesting'])
+        lk = run.get('lookalikes')
+        if lk:
+            how += ('; %s the application had defined and used %d enumeration classes of its own from the library\'s IntEnum / '
+                    'enum_bitmask under the names of the protocol enumerations (member variants %s, identities %s)' % (
+                        {'before-import': 'BEFORE the package was imported', 'before-sweep': 'after the import and BEFORE any '
+                         'protocol enumeration was asked', 'after-first-use': 'after every protocol enumeration had been iterated '
+                         'once,'}.get(lk['when'], lk['when']), lk['classes_defined'], ', '.join(lk['variants']), ', '.join(lk['idents'])))
+            if lk['own_answers_wrong_total'] or lk['not_definable']:
+                note = ('access sweep %s: %d answers of the APPLICATION classes about themselves differ from their definitions '
+                        '(not judged: not protocol enumerations), e.g. %s; not definable: %s' % (
+                            run['label'], lk['own_answers_wrong_total'], lk['own_answers_wrong'][:3], lk['not_definable'][:3]))
+                if note not in ctx.notes:
+                    ctx.notes.append(note)
 
         def rep(p, path, name, cv, pv, d, base_v):
             pos = dict((n, i) for i, n in enumerate(run['enum_order']))
@@ -529,7 +546,9 @@ def diff_access(ctx, cxx, py, runs, only=None):
                     'order': run['label'], 'nesting': run['nesting'], 'enum_order': run['enum_order'],
                     'path_order': run['path_order'], 'asked_before_this_enumeration': run['enum_order'][:pos.get(p['py'], 0)],
                     'spec': run['spec'], 'observe': pacc.replay_command(fv.REPO, run['spec']),
-                    'cxx': {'file': cenum[p['cxx']].get('file'), 'line': cenum[p['cxx']].get('line')}, '_detail': d}
+                    'cxx': {'file': cenum[p['cxx']].get('file'), 'line': cenum[p['cxx']].get('line')}, '_detail': d,
+                    **({'application_class_of_the_same_name_defined_and_used_last_before': lk['last_defined'].get(p['py']),
+                        'application_classes': {k: lk[k] for k in ('when', 'variants', 'idents', 'classes_defined')}} if lk else {})}
 
         for pth in run['paths']:
             path = pth['path']
@@ -867,7 +886,7 @@ def usage_run(ctx):
 def random_sweeps(ctx, specs):
     from concurrent.futures import ThreadPoolExecutor
     res = []
-    with ThreadPoolExecutor(max_workers=4) as ex:
+    with ThreadPoolExecutor(max_workers=6) as ex:
         futs = [(sp, ex.submit(pacc.run_sweep, fv.REPO, sp)) for sp in specs]
         for sp, f in futs:
             try:
@@ -918,7 +937,9 @@ def run(ctx, only=None):
         'tools/c03_py_extract.py (run-time walk of the imported working tree, equal to the ast.parse view of the class bodies)',
         'tools/c03_py_access.py as the list of access paths a user has from a name / number to a member (PATHS) and of the '
         'orders tried (forward, reverse, seeded random orders and nestings); state shared between enumerations that needs a '
-        'history outside those sweeps to show is not seen',
+        'history outside those sweeps to show is not seen; its list of foreign look-alikes (LOOKALIKE_MEMBERS x LOOKALIKE_IDENT x '
+        'LOOKALIKE_WHEN: application classes of the same __name__ built from the library\'s IntEnum / enum_bitmask with class '
+        'statements; classes built by other means, e.g. the functional API or aenum directly, are not tried)',
         'tools/c03_py_alias.py as the reader of "which statements can modify the tables" (may-alias scan of every package module; '
         'aliasing through containers, getattr()/globals() strings other than the listed forms, or code outside the package is not seen)',
         'tools/c03_cxx_extract.py as the reader of the DECLARATIONS of IsCommand/IsResponse (every textual occurrence of either name '
@@ -940,7 +961,9 @@ def run(ctx, only=None):
         diff_usage(ctx, cxx, py, usage, only)
     # the two orders of the Lean table + seeded random orders / nestings (each in its own fresh interpreter)
     n_random = 12 if ctx.thorough else 3
-    diff_access(ctx, cxx, py, py['access'] + random_sweeps(ctx, [pacc.random_spec(ctx.seed, k) for k in range(n_random)]), only)
+    # + the same sweeps in processes in which an application has defined and used its own classes of the same names
+    specs = [pacc.random_spec(ctx.seed, k) for k in range(n_random)] + pacc.lookalike_specs(ctx.seed, ctx.thorough)
+    diff_access(ctx, cxx, py, py['access'] + random_sweeps(ctx, specs), only)
     ctx.sample({'cxx': 'MessageType::STARTUP_REQUEST = %s, IsCommand=%s' % next(
         ((v, c) for m, v, c, r in cxx['classification'] if m == 'STARTUP_REQUEST'), (None, None)),
         'py': 'STARTUP_REQUEST in COMMAND_MESSAGES = %s' % any(m == 'STARTUP_REQUEST' for m, _ in py['command'])})
@@ -959,7 +982,7 @@ def check(ctx):
     ctx.cov['rule'] = ('exhaustive: every enumerator of every `enum class` block of src/point_one/fusion_engine/messages/*.h (plus the '
                        'listed static-const group) against the paired Python IntEnum, read from `__members__` after the import AND '
                        'through every access path of tools/c03_py_access.py (every enumeration asked for every name and number of '
-                       'every enumeration; orders forward, reverse + seeded random, one fresh interpreter each); every MessageType enumerator x {IsCommand, '
+                       'every enumeration; orders forward, reverse + seeded random, one fresh interpreter each; and again in fresh interpreters in which an application has defined and used its own IntEnum / enum_bitmask classes under the same names before the import / before the first question / after the first iteration); every MessageType enumerator x {IsCommand, '
                        'IsResponse} x every call form the headers declare (each overload / member, called with an argument of its '
                        'declared parameter type); every module of python/fusion_engine_client scanned (aliases followed) for '
                        'statements modifying the classification sets / registry, each site executed in a fresh interpreter; every struct declaring MESSAGE_TYPE/MESSAGE_VERSION against the MessagePayload subclasses and '
